@@ -90,6 +90,9 @@ async def _stack_case(loop, case):  # type: ignore[no-untyped-def]
                 out.append("echo-of:" + T.cmd_frame(c2))
             if frame == T.reply_frame(c2, gwy_id):
                 out.append("reply-to:" + T.cmd_frame(c2))
+            # a null fault-log entry is, by the protocol, the reply to an RQ|0418 for ANY log index of that controller (as in the thin rig)
+            if c2["code"] == "0418" and c2["verb"] == "RQ" and frame == f"RP --- {c2['dst']} {gwy_id} --:------ 0418 022 {T.Rig.NULL_0418}":
+                out.append("reply-to:" + T.cmd_frame(c2))
         return out or ["UNLABELLED"]
 
     async def caller(i: int, spec: dict) -> None:
